@@ -361,7 +361,11 @@ func c05Check(c *hx.Ctx, k int, cert *x509.Certificate, ty c05Type, content []by
 	if !attached {
 		mp.Content = content
 	}
-	if verr := mp.Verify(); verr != nil {
+	if verr := mp.Verify(); verr != nil && strings.Contains(verr.Error(), "is outside of certificate validity") {
+		// this implementation also holds the signing time against the certificate's validity period,
+		// which is no part of the statement (clock instants outside the test certificates' lifetime)
+		c.Count("mozilla_not_judged_validity_period", 1)
+	} else if verr != nil {
 		what := "rejects the signature"
 		if strings.Contains(verr.Error(), "verification error") || strings.Contains(verr.Error(), "verification failure") {
 			what = "rejects the signature over the attribute SET re-encoded in DER order"
@@ -496,6 +500,18 @@ func c05Run(c *hx.Ctx, tier, unit string) {
 					}
 					c05Check(c, 1, cert, ty, c05Content(n, ty.name == "data"), nil, fmt.Sprintf("zone=%s type=%s len=%d", z, ty.name, n))
 				}
+			}
+		}
+		// instants at and beyond the end of the UTCTime window (1950-2049): the signing time must then be
+		// a GeneralizedTime (RFC 5652 11.3), and the signature must still be made and verify everywhere
+		for _, at := range []time.Time{time.Date(2049, 12, 31, 23, 59, 59, 0, time.UTC), time.Date(2050, 1, 1, 0, 0, 0, 0, time.UTC), time.Date(2100, 2, 28, 12, 0, 0, 0, time.UTC),
+			time.Date(9999, 12, 31, 23, 59, 59, 0, time.UTC), time.Date(1970, 1, 1, 0, 0, 0, 0, time.UTC), time.Date(2024, 2, 29, 23, 59, 59, 999999999, time.UTC)} {
+			vtime.Set(at)
+			for _, ty := range c05Types()[:2] {
+				if !c.Next() {
+					continue
+				}
+				c05Check(c, 1, cert, ty, c05Content(64, ty.name == "data"), nil, fmt.Sprintf("clock at %s type=%s", at.Format(time.RFC3339), ty.name))
 			}
 		}
 		// a clock that moves on between any two readings (by a second, by less, across midnight and
